@@ -49,6 +49,11 @@ def shapes(tier, seed):
                 fmts = list(itertools.product(("coo", "csr"), repeat=2))
             for fs, fh in fmts:
                 out.append({"n": n, "pattern": [list(p) for p in pat], "fmt_S": fs, "fmt_h": fh})
+    # volumes handed over as an INTEGER numpy array (positive integers are positive volumes; the energies, areas, distances, D, T stay symbolic)
+    for n in (2, 3):
+        pats = list(sym_patterns(n))
+        for pat in (pats[-1], pats[len(pats) // 2]):
+            out.append({"n": n, "pattern": [list(p) for p in pat], "fmt_S": "coo", "fmt_h": "csr", "int_volumes": True})
     # small shapes first: a broken tree is refuted within seconds
     out.sort(key=lambda s: (s["n"], len(s["pattern"])))
     return out
@@ -70,10 +75,14 @@ def run_shape(shape):
     n = shape["n"]
     pattern = [tuple(p) for p in shape["pattern"]]
     E, V, S, H, D, Tt, cshift, ascale = _vars(n, pattern)
+    intv = bool(shape.get("int_volumes"))
+    if intv:
+        V = [z3.RealVal(2 + i) for i in range(n)]
+    vols = (lambda: np.array([2 + i for i in range(n)], dtype=np.int64)) if intv else (lambda: sarr([SR(v) for v in V]))
     eng = Engine()
     prover = Prover(timeout_ms=20000, budget_s=240)
     acc = Acc(shape)
-    pos = V + list(set(S.values())) + list(set(H.values())) + [D, Tt, ascale]
+    pos = ([] if intv else V) + list(set(S.values())) + list(set(H.values())) + [D, Tt, ascale]
     pre = [v > 0 for v in pos]
     eng.assume_global(*pre)
     for v in pos:
@@ -85,7 +94,7 @@ def run_shape(shape):
         return c if fmt == "coo" else c.tocsr()
 
     def one(Evals, Dval):
-        s = T.SQRA(energies=sarr([SR(e) for e in Evals]), volumes=sarr([SR(v) for v in V]),
+        s = T.SQRA(energies=sarr([SR(e) for e in Evals]), volumes=vols(),
                    distances=mk(H, shape["fmt_h"]), surfaces=mk(S, shape["fmt_S"]))
         return s.get_rate_matrix(SR(Dval), SR(Tt))
 
@@ -101,7 +110,7 @@ def run_shape(shape):
             Qa = one(E, ascale * D)
             # a second call on the SAME object and the same input arrays: the builder must be a pure function of its inputs
             Sm, Hm = mk(S, shape["fmt_S"]), mk(H, shape["fmt_h"])
-            En, Vn = sarr([SR(e) for e in E]), sarr([SR(v) for v in V])
+            En, Vn = sarr([SR(e) for e in E]), vols()
             obj = T.SQRA(energies=En, volumes=Vn, distances=Hm, surfaces=Sm)
             q1 = obj.get_rate_matrix(SR(D), SR(Tt))
             q2 = obj.get_rate_matrix(SR(D), SR(Tt))
@@ -250,6 +259,8 @@ def _real_inputs(shape, model):
     g = lambda nm, d: fval(model, nm, d)
     E = np.array([g(f"E{i}", 0.0) for i in range(n)], dtype=float)
     V = np.array([g(f"V{i}", 1.0) for i in range(n)], dtype=float)
+    if shape.get("int_volumes"):
+        V = np.array([2 + i for i in range(n)], dtype=np.int64)
     keys = sorted([(i, j) for (i, j) in pattern] + [(j, i) for (i, j) in pattern])
     sv = {k: g("S%d_%d" % tuple(sorted(k)), 1.0) for k in keys}
     hv = {k: g("h%d_%d" % tuple(sorted(k)), 1.0) for k in keys}
